@@ -428,9 +428,15 @@ void ConditionVariableAcquisitionImpl__wait_for(struct ConditionVariableAcquisit
     __CPROVER_ensures(vf_exc != 0 || __CPROVER_old(self->granted_) || !(timeout > 0.0) || !MC_ON ||
                       (g_result_set == 1 && g_result_value && g_sleeps == 0 && Qn == oldQn - 1))
     /*@ wait_for_mc_mode_takes_the_timeout_at_once */
-    __CPROVER_ensures(vf_exc != 0 || __CPROVER_old(self->granted_) || timeout > 0.0 ||
+    __CPROVER_ensures(vf_exc != 0 || __CPROVER_old(self->granted_) || !(timeout < 0.0) ||
                       (g_sleeps == 0 && g_unreg_calls == 0 && g_answered == 0 && g_result_set == 0))
     /*@ wait_for_without_timeout_blocks_until_notified */
+    /* t == 0 (s4u wait_for clamps negative timeouts to 0, wait_until passes 0 for a deadline in the past: "not notified
+       within 0 seconds"): the property demands a timeout report now, through a timer of duration 0 or directly.  The
+       code only arms a timer when timeout > 0: KNOWN FINDING (see known_findings.txt / level_note)                   */
+    __CPROVER_ensures(vf_exc != 0 || __CPROVER_old(self->granted_) || timeout != 0.0 ||
+                      (g_sleeps == 1 && g_sleep_duration == 0.0 && ACT(self).model_action_ == TIMER) ||
+                      (g_result_set == 1 && g_result_value)) /*@ wait_for_zero_timeout_expires_at_once */
     __CPROVER_ensures(!NOMC(self->issuer_) || g_answered == 0 || (g_answered == 1 && g_m.owner_ == self->issuer_))
     /*@ wait_returns_only_as_owner_of_its_mutex */;
 
